@@ -438,3 +438,17 @@ package device
 //@   loop 2 invariant [C01] wf(d) && InvCore(d) && (forall k evdev.EvCode :: visited(k) ==> !has(d.noteTracker, k))
 //@   loop 3 invariant [C01] wf(d) && InvCore(d) && empty(d.noteTracker) && (forall s string :: visited(s) ==> !has(d.analogNoteTracker, s))
 //@   safety [C01]
+
+// ---- property lemmas (consequences of the invariants alone)
+
+// C01, first sentence: whenever no key and no key-emulating axis is held, nothing started by the device is sounding
+//@ lemma C01_quiescence [C01]: forall d *Device :: Inv(d) && empty(d.keyTracker) && empty(d.analogNoteTracker) ==> (forall ch byte, n byte :: !sounding[ch][n])
+
+// C03: under the counting invariant the counter is the number of holders: zero iff nobody holds the pitch,
+// and at a release it is one iff the released key is the only holder
+//@ lemma C03_first_holder [C03]: forall d *Device, ch byte, n byte :: counted(d) && ch < 16 && n < 128 ==> (d.activeNotesCounter[ch][n] == 0 <==> !(exists k evdev.EvCode :: has(d.noteTracker, k) && d.noteTracker[k] == mkarr(n, ch)))
+//@ lemma C03_last_holder [C03]: forall d *Device, k evdev.EvCode, k2 evdev.EvCode :: wf(d) && counted(d) && has(d.noteTracker, k) && has(d.noteTracker, k2) && k != k2 && d.noteTracker[k] == d.noteTracker[k2] ==> d.activeNotesCounter[d.noteTracker[k][1]][d.noteTracker[k][0]] >= 2
+
+// vacuity guards for the counting axioms and the invariants: these must NOT be provable
+//@ canary inv_not_contradictory [C01,C03]: forall d *Device :: !(Inv(d) && tableOK(d) && has(d.noteTracker, 30) && has(d.noteTracker, 31) && d.noteTracker[30] == d.noteTracker[31] && sounding[0][60])
+//@ canary counting_not_trivial [C01,C03]: forall d *Device :: counted(d) ==> d.activeNotesCounter[0][0] == 0
